@@ -216,7 +216,7 @@ PROPS['C11'] = dict(
     runs=[dict(variant='plain', harness='c11_metadata', cases=dict(quick=30000, thorough=800000)),
           dict(variant='asan', harness='c11_metadata', tag='asan-slice', cases=dict(quick=3000, thorough=60000))],
     min_nontrivial=8000,
-    require_counters={'config/edgebreaker': 1000, 'config/kd-tree': 500, 'entries': 100000, 'sub_metadata': 20000, 'attribute_metadata': 10000, 'empty_names': 1000, 'depth/8': 300,
+    require_counters={'config/edgebreaker': 1000, 'config/kd-tree': 500, 'entries': 100000, 'sub_metadata': 20000, 'attribute_metadata': 10000, 'empty_names': 1000, 'depth/8': 50,
                       'encoder_refused/Failed to encode metadata./name>255/*': 500, 'encoder_refused/Failed to encode metadata./names<=255/empty-value': 500},
     assumptions=['empty values are driven in the plain variant only (constructing them trips UBSan inside libstdc++ before any Draco coding starts)'],
 )
